@@ -83,7 +83,7 @@ Theorem c18_exit_is_last_call :
 Proof. exact exit_is_last_call_thm. Qed.
 Print Assumptions c18_exit_is_last_call.
 
-(* The reason of a failed setgroups/setgid (OSError), chdir (OSError), umask or
+(* The reason of a failed setgroups/setgid/setuid (OSError), chdir (OSError), umask or
    execve (any exception) is the very next thing written to descriptor 2
    (and by c18_exit_127_last that is before the exit). *)
 Theorem c18_msg_before_exit :
@@ -105,16 +105,6 @@ Theorem c18_msg_identity :
        existsb (is_write_of (MSetuid RNonRoot)) log = true \/ existsb fd_failed log = true).
 Proof. exact world_reason_thm. Qed.
 Print Assumptions c18_msg_identity.
-
-(* Known finding C18-setuid-raises: os.setuid() raising OSError is outside
-   reason_for - no reason is written (the child still exits 127). *)
-Theorem c18_setuid_raises_no_reason_refuted :
-  exists c w o,
-    In (Setuid 1000, Some (EOS 1)) (fst (run false c w o)) /\
-    existsb mentions_setuid (fst (run false c w o)) = false /\
-    snd (run false c w o) = EExit.
-Proof. exact setuid_raises_no_reason_refuted. Qed.
-Print Assumptions c18_setuid_raises_no_reason_refuted.
 
 (* drop_privileges *)
 Theorem c18_drop_none_switches :
@@ -148,6 +138,6 @@ Theorem c18_drop_oserror_message :
     drop_privileges er o w u = (l, r) -> In x l -> snd x = Some (EOS e) ->
     (exists gs, fst x = Setgroups gs /\ r = Val (Some RSetgroups)) \/
     (exists g, fst x = Setgid g /\ r = Val (Some RSetgid)) \/
-    (exists n, fst x = Setuid n /\ r = Exc (EOS e)).
+    (exists n, fst x = Setuid n /\ r = Val (Some RSetuid)).
 Proof. exact drop_oserror_message. Qed.
 Print Assumptions c18_drop_oserror_message.
